@@ -10,6 +10,9 @@ use std::time::Instant;
 
 const SIGMA: [char; 13] = ['a', 'Z', '7', '0', '+', '-', '_', 'α', 'ρ', 'φ', 'Δ', '𝜑', ' '];
 const SIGMA2: [char; 5] = ['a', 'ρ', 'α', '5', '𝜑'];
+/// characters that look like the alpha sign or like a digit without being one (mathematical italic
+/// alpha, Latin alpha, APL alpha, Cyrillic a, capital Alpha, Arabic-Indic and full-width digits), next to the real ones
+const SIGMA3: [char; 11] = ['α', '𝛼', 'ɑ', '⍺', 'а', 'Α', '5', '٣', '５', 'x', '0'];
 
 #[derive(Debug, PartialEq, Eq, Clone, Copy)]
 pub enum Class {
@@ -242,6 +245,9 @@ pub fn run_c17(tier: &str) -> Outcome {
     for len in 0..=max2 {
         blocks.push((&SIGMA2, len, SIGMA2.len().pow(len as u32)));
     }
+    for len in 1..=(if quick { 4 } else { 5 }) {
+        blocks.push((&SIGMA3, len, SIGMA3.len().pow(len as u32)));
+    }
     // plus alpha + digits texts up to and beyond usize
     let mut starts = vec![0usize];
     for b in &blocks {
@@ -278,7 +284,7 @@ pub fn run_c17(tier: &str) -> Outcome {
     acc.bump("canonical_values", values.len() as u64);
     acc.merge(vacc);
     let rule = format!(
-        "every string of length 0..={max1} over {{a Z 7 0 + - _ α ρ φ Δ 𝜑 space}} and of length 0..={max2} over {{a ρ α 5 𝜑}} plus boundary texts; every canonical value Greek(c), Alpha(n) at every decimal-length boundary up to usize::MAX, Str of 2..=8 characters over the small and 2..={} over the large alphabet. A text is non-trivial when the statement settles it (valid: must round-trip; too long / malformed index: must be Err); distinctness is checked with == in both directions against each valid text's neighbours (proper prefixes, last character changed, one character appended) in addition to the round trip",
+        "every string of length 0..={max1} over {{a Z 7 0 + - _ α ρ φ Δ 𝜑 space}} and of length 0..={max2} over {{a ρ α 5 𝜑}} and of length 1..=4 (thorough 5) over look-alikes of the alpha sign and of digits {{α 𝛼 ɑ ⍺ а Α 5 ٣ ５ x 0}} plus boundary texts; every canonical value Greek(c), Alpha(n) at every decimal-length boundary up to usize::MAX, Str of 2..=8 characters over the small and 2..={} over the large alphabet. A text is non-trivial when the statement settles it (valid: must round-trip; too long / malformed index: must be Err); distinctness is checked with == in both directions against each valid text's neighbours (proper prefixes, last character changed, one character appended) in addition to the round trip",
         if quick { 3 } else { 4 }
     );
     super::outcome("C17", tier, "exploration", &rule, acc, true, json!({}), t0.elapsed().as_secs_f64(), vec!["reading of the statement: 'longer than 8 characters' applies to texts that do not start with α (Alpha(n) must round-trip for every n); α05, α+5, empty text and texts with spaces are not settled by the statement".to_string()], vec![])
